@@ -891,6 +891,7 @@ class ASTTransformer(object):
     visit_While = _clone
     visit_If = _clone
     visit_With = _clone
+    visit_withitem = _clone
     visit_Raise = _clone
     visit_TryExcept = _clone
     visit_TryFinally = _clone
